@@ -435,6 +435,21 @@ fn one_c01(prop: &str, c: &Case, rep: &mut Report) {
                 rep.count("direct_route_differs_judged_separately", 1);
                 geom::check_c01(prop, c, &b, &rd, rep);
             }
+            // third source of the face list (3D, every third input): the integrals evaluated on the with-faces integrator -
+            // another decomposition (fans of the stored face polygons) of the same cells. Not for inputs with a generator
+            // exactly on a wall of a non-periodic box (finding F9: that wall face gets the area 0 there; C14 / C15 report it)
+            let (an, wn) = c.norm_box();
+            let on_wall = !c.periodic && c.pts.iter().any(|p| (0..3).any(|ax| p[ax] == an[ax] || p[ax] == an[ax] + wn[ax]));
+            if c.dim == 3 && c.hash() % 3 == 0 && !on_wall {
+                match guarded(|| b.vi.clone().with_faces().compute_face_integrals::<meshless_voronoi::integrals::AreaCentroidIntegral>()) {
+                    Ok(w) => {
+                        b.nonsym = w;
+                        rep.count("with_faces_face_lists_judged", 1);
+                        geom::check_c01(prop, c, &b, &rd, rep);
+                    }
+                    Err(p) => rep.violations.push(panic_violation(prop, c, &p)),
+                }
+            }
             note_case(rep, c, c.n() >= 2);
         }
     }
